@@ -158,6 +158,10 @@ namespace nmtools::view
             if ((nm_size_t)i == 0) {
                 return static_cast<element_type>(start);
             }
+            // with endpoint the last element is stop itself (as numpy.linspace: y[-1] = stop), not start + (num-1) * step rounded
+            if (static_cast<bool>(endpoint) && ((nm_size_t)i + 1 == (nm_size_t)num)) {
+                return static_cast<element_type>(stop);
+            }
             return static_cast<element_type>(start) + (i * step);
         }
     }; // linspace_t
